@@ -7,7 +7,7 @@
   current source on every run (`lean/Generated/Tables.lean`, written by
   `harness/extract_vocab.py` from `_Filterer()._operator_map`, `LOGICAL_OPERATOR_MAP`,
   `_TOP_LEVEL_OPERATORS`, `_NOT_IMPLEMENTED_OPERATORS`, `collection._updaters`, the in-line
-  branches of `Collection._apply_update`, `aggregate._PIPELINE_HANDLERS`, the `if k in <list>`
+  branches of `Collection._apply_update`, the names `_validate_update_operators` lets through, `aggregate._PIPELINE_HANDLERS`, the `if k in <list>`
   chain of `_Parser.parse` with the branches of every `_handle_*`, `_GROUPING_OPERATOR_MAP`,
   `group_operators`, `TYPE_MAP`).
 
@@ -53,12 +53,14 @@ def cToDecimal : Code := 511812798266980789351460 -- "$toDecimal"
 inductive Position
   | queryField        -- `find({path: {NAME: x}})`, the path has at least one candidate value
   | queryFieldDeadEnd -- the same, the path reaches nothing (a field name over an array of
-                      -- scalars, an index past the end): no candidate value
+                      -- scalars, an index past the end): no candidate value (the operators
+                      -- are checked all the same, before the candidates are looked for)
   | queryTop          -- `find({NAME: x})`
   | queryNot          -- `find({path: {$not: {NAME: x}}})`
   | queryElemMatch    -- `find({path: {$elemMatch: {NAME: x}}})`
   | updateOp          -- `update_*(filter, {NAME: x})`, a document matches (or upsert)
-  | updateNoMatch     -- the same, no document matches and no upsert
+  | updateNoMatch     -- the same, no document matches and no upsert (the operators are
+                      -- checked all the same, before any document is looked for)
   | pushModifier      -- `{$push: {f: {$each: [..], NAME: x}}}`
   | addToSetModifier  -- `{$addToSet: {f: {$each: [..], NAME: x}}}`
   | stage             -- `aggregate([{NAME: x}])`
@@ -98,6 +100,8 @@ structure Tables (α : Type) where
   fieldNI : List α          -- `_NOT_IMPLEMENTED_OPERATORS`
   updaters : List α         -- `collection._updaters`
   updateInline : List α     -- `elif k == '$op'` branches of `_apply_update`
+  updateChecked : List α    -- the names `_validate_update_operators` lets through (`_updaters`
+                            -- and `_OTHER_UPDATE_OPERATORS`), before any document is looked for
   pushModifiers : List α    -- the clause set of the `$push` branch
   stagesImpl : List α       -- `_PIPELINE_HANDLERS` with a handler
   stagesNone : List α       -- `_PIPELINE_HANDLERS` with `None`
@@ -117,7 +121,8 @@ def Tables.map {α β} (f : α → β) (T : Tables α) : Tables β :=
   { operatorMap := T.operatorMap.map f, logicalOps := T.logicalOps.map f,
     logicalConst := T.logicalConst.map f, topLevelNI := T.topLevelNI.map f,
     fieldNI := T.fieldNI.map f, updaters := T.updaters.map f,
-    updateInline := T.updateInline.map f, pushModifiers := T.pushModifiers.map f,
+    updateInline := T.updateInline.map f, updateChecked := T.updateChecked.map f,
+    pushModifiers := T.pushModifiers.map f,
     stagesImpl := T.stagesImpl.map f, stagesNone := T.stagesNone.map f,
     exprChain := T.exprChain.map (fun p => (p.1.map f, p.2.map f)),
     exprNI := T.exprNI.map f, groupingMap := T.groupingMap.map f,
@@ -127,7 +132,7 @@ def Tables.map {α β} (f : α → β) (T : Tables α) : Tables β :=
 
 def Tables.empty : Tables Code :=
   { operatorMap := [], logicalOps := [], logicalConst := [], topLevelNI := [], fieldNI := [],
-    updaters := [], updateInline := [], pushModifiers := [], stagesImpl := [], stagesNone := [],
+    updaters := [], updateInline := [], updateChecked := [], pushModifiers := [], stagesImpl := [], stagesNone := [],
     exprChain := [], exprNI := [], groupingMap := [], groupInline := [], groupOperators := [],
     typeImpl := [], typeNone := [], decimalSupport := false }
 
@@ -157,6 +162,7 @@ structure NameClass where
   fieldNI : Bool
   updater : Bool
   updateInline : Bool
+  updateChecked : Bool
   pushMod : Bool
   stageImpl : Bool
   exprHit : Option Bool
@@ -179,6 +185,7 @@ def classify (T : Tables Code) (k : Code) : NameClass :=
     fieldNI := T.fieldNI.contains k,
     updater := T.updaters.contains k,
     updateInline := T.updateInline.contains k,
+    updateChecked := T.updateChecked.contains k,
     pushMod := T.pushModifiers.contains k,
     stageImpl := T.stagesImpl.contains k,
     exprHit := chainHit k T.exprChain,
@@ -213,15 +220,18 @@ def fieldDispatch (c : NameClass) : Disposition :=
   else if c.fieldNI then .raisesNotImplemented
   else .raisesOther
 
-/-- the same condition when the path yields NO candidate value (it reaches nothing): the
-    candidate loop is not entered, nothing is validated.  `$all` is evaluated before the loop,
-    `{$exists: false}` is special-cased; `$ne`/`$nin` alone make the document match, every other
-    operator makes it not match — whatever the name and the operand. -/
+/-- the same condition when the path yields NO candidate value (it reaches nothing).  The
+    operators are checked BEFORE the candidates are looked for (filtering.py, "The operators are
+    checked whether or not the key leads to a value"), exactly as `fieldDispatch` does; then the
+    candidate loop is not entered: `$all` is evaluated before the loop, `{$exists: false}` is
+    special-cased, `$ne`/`$nin` alone make the document match whatever their operand is — their
+    operand takes no part in the result (known findings `ignored:queryFieldDeadEnd:$ne`,
+    `…:$nin`) —, every other operator makes it not match. -/
 def deadEndDispatch (c : NameClass) : Disposition :=
   if !c.op then .plainKey
-  else if c.all || c.exists_ then .implemented
   else if c.operatorMap || c.not_ then (if c.neNin then .ignored else .implemented)
-  else .ignored
+  else if c.fieldNI then .raisesNotImplemented
+  else .raisesOther
 
 /-- `_not_op`: every key must be in `_operator_map` or `LOGICAL_OPERATOR_MAP`, else
     OperationFailure; then `apply({path: {NAME: x}})`, i.e. the field-level dispatch. -/
@@ -235,15 +245,20 @@ def elemMatchDispatch (c : NameClass) : Disposition :=
   | .raisesOther => fieldDispatch c
   | d => d
 
-/-- the operator loop of `Collection._apply_update` for a matched (or upserted) document:
-    `_updaters`, the in-line branches, else the "replace entire document" branch, which raises
-    ValueError for a `$` key (a key without `$` is rejected before, by `validate_ok_for_update`). -/
+/-- `_validate_update_operators` (before any document is looked for): a key that is neither in
+    `_updaters` nor in `_OTHER_UPDATE_OPERATORS` → ValueError; then the operator loop of
+    `Collection._apply_update` for a matched (or upserted) document: `_updaters`, the in-line
+    branches, else the "replace entire document" branch, which raises ValueError for a `$` key
+    (a key without `$` is rejected before, by `validate_ok_for_update`). -/
 def updateDispatch (c : NameClass) : Disposition :=
-  if c.updater || c.updateInline then .implemented else .raisesOther
+  if !c.updateChecked then .raisesOther
+  else if c.updater || c.updateInline then .implemented else .raisesOther
 
-/-- no document matches and no upsert: the loop body never runs, nothing is validated. -/
+/-- no document matches and no upsert: `_validate_update_operators` has run, the loop body never
+    does.  A name the pre-check lets through and the loop has no branch for would be accepted
+    silently here (`update_precheck_within_loop` in Props/C20: the regenerated tables have none). -/
 def updateNoMatchDispatch (c : NameClass) : Disposition :=
-  if !c.op then .raisesOther
+  if !c.updateChecked then .raisesOther
   else if c.updater || c.updateInline then .implemented
   else .ignored
 
@@ -251,9 +266,9 @@ def updateNoMatchDispatch (c : NameClass) : Disposition :=
 def pushDispatch (c : NameClass) : Disposition :=
   if c.pushMod then .implemented else .raisesOther
 
-/-- `$addToSet` with `$each`: nothing but `$each` is looked at. -/
+/-- `$addToSet` with `$each` (`_each_of_add_to_set`): any key other than `$each` → WriteError. -/
 def addToSetDispatch (c : NameClass) : Disposition :=
-  if c.each then .implemented else .ignored
+  if c.each then .implemented else .raisesOther
 
 /-- `process_pipeline`: `_PIPELINE_HANDLERS[operator]`; KeyError and `None` both →
     NotImplementedError. -/
@@ -310,7 +325,8 @@ def recognised (T : Tables Code) : Position → List Code
   | .queryNot => T.operatorMap ++ T.logicalOps
   | .queryElemMatch =>
       [cComment, cExpr] ++ T.logicalOps ++ T.topLevelNI ++ T.operatorMap ++ [cNot] ++ T.fieldNI
-  | .updateOp | .updateNoMatch => T.updaters ++ T.updateInline
+  | .updateOp => T.updaters ++ T.updateInline
+  | .updateNoMatch => T.updateChecked
   | .pushModifier => T.pushModifiers
   | .addToSetModifier => [cEach]
   | .stage => T.stagesImpl
@@ -323,12 +339,6 @@ def recognised (T : Tables Code) : Position → List Code
 def defaultRaise : Position → Disposition
   | .stage | .accumulator => .raisesNotImplemented
   | _ => .raisesOther
-
-/-- the positions at which the code validates nothing (lazy validation) or looks at one clause
-    only: an unknown name is accepted silently there -/
-def Position.lazy : Position → Bool
-  | .queryFieldDeadEnd | .updateNoMatch | .addToSetModifier => true
-  | _ => false
 
 /-! ## generated table rows -/
 
@@ -356,11 +366,10 @@ def Row.ok (T : Tables Code) (r : Row) : Bool :=
   enc r.name == r.code && decide (classify T r.code = r.cls) &&
     r.disps.all (fun pd => decide (dispatchC T.decimalSupport pd.1 r.cls = pd.2))
 
-/-- the per-row check behind `no_vocab_name_ignored`: an observed `ignored` is a listed one -/
-def Row.ignoredKnown (knownPos : List Position) (knownPairs : List (Position × Code)) (r : Row) :
-    Bool :=
-  r.disps.all (fun pd => decide (pd.2 ≠ .ignored) || knownPos.contains pd.1 ||
-    knownPairs.contains (pd.1, r.code))
+/-- the per-row check behind `no_vocab_name_ignored`: an observed `ignored` is a listed one
+    (single (position, name) pairs: no position is excused as a whole any more) -/
+def Row.ignoredKnown (knownPairs : List (Position × Code)) (r : Row) : Bool :=
+  r.disps.all (fun pd => decide (pd.2 ≠ .ignored) || knownPairs.contains (pd.1, r.code))
 
 /-! ## consumer sites of the shared dispatchers (pipeline language)
 
